@@ -90,7 +90,16 @@ func parseString(filename string, input antlr.CharStream) (tree parser.ISysl_fil
 	return tree, nil
 }
 
-func importForeign(def importDef, input antlr.CharStream) (antlr.CharStream, error) {
+// importForeign converts a foreign-format file into Sysl text. It runs in a goroutine of its own for every file of
+// the closure (parseSpecs); the importers assert their structural assumptions with panics and nil dereferences (e.g.
+// a Swagger definition of type array without items), which would kill the whole process: such a panic is reported
+// as a parse error of that file, like the panics of the tree walk.
+func importForeign(def importDef, input antlr.CharStream) (out antlr.CharStream, err error) {
+	defer func() {
+		if r := recover(); r != nil {
+			out, err = nil, syslutil.Exitf(ParseError, fmt.Sprintf("%s cannot be imported: %v\n", def.filename, r))
+		}
+	}()
 	logger := logrus.StandardLogger()
 	fileName, _ := mod.ExtractVersion(def.filename)
 	file := input.GetText(0, input.Size())
